@@ -27,6 +27,8 @@ func (prop) CaseTimeout() time.Duration { return 120 * time.Second }
 //   emit <subs> <pubs> <msgs> <late> <unsub>
 //   emitstall <close|unsubscribe>
 //   views <workers> <iters> <snapshots> <readOnly>
+//   lostupd <get|has|iterate|range> <set|del|setdel|delset|snaprestore|setsnap|commit> <same|sibling|split|root> <stored> <noise>   (atomic.go)
+//   chaincta <stable> <cache> <readers> <rounds>   (atomic.go)
 
 func specString(specs []BulkSpec) string {
 	var parts []string
@@ -126,6 +128,7 @@ func (prop) Generate(rng *rand.Rand, tier string) []corr.Case {
 			add("views", fmt.Sprintf("views %d %d %d %d", 2+rng.Intn(6), (150+rng.Intn(300))*scale, rng.Intn(2), rng.Intn(2)))
 		}
 	}
+	genAtomic(rng, tier, add)
 	return cases
 }
 
@@ -154,6 +157,10 @@ func runOp(rng *rand.Rand, op string) (fails []corr.Fail, err string) {
 		return ScenarioEmitterStalled(w[1] == "close"), ""
 	case w[0] == "views" && len(w) == 5:
 		return ScenarioViews(rng, atoi(w[1]), atoi(w[2]), w[3] == "1", w[4] == "1"), ""
+	case w[0] == "lostupd" && len(w) == 6:
+		return ScenarioLostUpdate(rng, LostUpdateSpec{Reader: w[1], Writer: w[2], View: w[3], Stored: w[4] == "1", Noise: atoi(w[5])}), ""
+	case w[0] == "chaincta" && len(w) == 5:
+		return ScenarioChainCheckThenAct(rng, atoi(w[1]), atoi(w[2]), atoi(w[3]), atoi(w[4])), ""
 	}
 	return nil, "bad-op"
 }
@@ -225,6 +232,10 @@ func (prop) Classify(c corr.Case, out []string) string {
 		return "drain:" + k + ":" + res
 	case "views":
 		return fmt.Sprintf("views:snap%s:ro%s:%s", w[3], w[4], res)
+	case "lostupd":
+		return fmt.Sprintf("lostupd:%s-vs-%s:%s", w[1], w[2], res)
+	case "chaincta":
+		return "chaincta:" + res
 	}
 	return w[0] + ":" + res
 }
